@@ -1,6 +1,7 @@
 import Vuego.Driver.OverlayOp
 import Vuego.Driver.StackOp
 import Vuego.Driver.DomJson
+import Vuego.Driver.PageOp
 namespace Vuego.Driver
 open Lean
 
@@ -12,6 +13,8 @@ def handle (j : Json) : Json :=
   | "splitpath" => splitPathOp j
   | "render" => renderOp j
   | "tokenize" => tokenizeOp j
+  | "page" => pageOp j
+  | "expr" => exprOp j
   | _ => O [("error", Json.str "bad-op")]
 
 def handleLine (line : String) : String :=
